@@ -1,13 +1,34 @@
 import NmVerif.NN.ConvLemmas
 /-
-  NN/Conv2dLemmas — the conv2d instance (n_planes = 2) of the convnd pipeline.
+  NN/Conv2dLemmas — the conv2d instance (n_planes = 2) of the convnd pipeline, for per-plane stride / padding /
+  dilation given as None, one integer, or a pair `(h, w)`.
 -/
 namespace NmVerif.NN
+
+/-! ### argument forms at `n_planes = 2` -/
+
+/-- per-plane values `(h, w)` of an optional argument: `None` ↦ default, `v` ↦ `(v, v)`, `[h, w]` ↦ `(h, w)` -/
+def vals2 (dflt : Nat) : PArg → Nat × Nat
+  | .none => (dflt, dflt)
+  | .int v => (v, v)
+  | .arr [a, b] => (a, b)
+  | .arr _ => (0, 0)
+
+/-- accepted forms: None, an integer, a pair -/
+def Form2 (a : PArg) : Prop := a = .none ∨ (∃ v, a = .int v) ∨ (∃ h w, a = .arr [h, w])
+
+/-- accepted forms with positive entries -/
+def PosForm2 (a : PArg) : Prop := a = .none ∨ (∃ v, 0 < v ∧ a = .int v) ∨ (∃ h w, 0 < h ∧ 0 < w ∧ a = .arr [h, w])
+
+theorem vals2_pos {a : PArg} (h : PosForm2 a) : 0 < (vals2 1 a).1 ∧ 0 < (vals2 1 a).2 := by
+  rcases h with rfl | ⟨v, hv, rfl⟩ | ⟨h, w, hh, hw, rfl⟩ <;> simp [vals2, *]
+
+/-! ### index helpers -/
 
 theorem crw2 (O Cg KH KW g : Nat) : convReshapeWeight [O, Cg, KH, KW] g 2 = [O / g, g, Cg, KH, KW] := by
   simp [convReshapeWeight, setI, getI, posI, List.range, List.range.loop]
 
-theorem cri2 (N C H W g : Nat) : convReshapeInput [N, C, H, W] g 2 = [1, 1, g, C / g, H, W] := by
+theorem cri2 (N C H W g : Nat) : convReshapeInput [N, C, H, W] g 2 = [N, 1, g, C / g, H, W] := by
   simp [convReshapeInput, setI, getI, posI, List.range, List.range.loop]
 
 theorem crr2 (a b c d e : Nat) : convReshapeReduce [a, b, c, d, e] 2 = [a, b * c, d, e] := by
@@ -25,110 +46,21 @@ theorem cwa2 : convWindowAxis 2 = [-1, -2] := by
 theorem csa2 : convSumAxes 2 = [-1, -2, -5] := by
   simp [convSumAxes, convWindowAxis, List.range, List.range.loop]
 
-theorem cpad2 (p : Nat) : convPad 6 (.int p) 2 = [0,0,0,0,p,p,0,0,0,0,p,p] := by
-  simp [convPad, List.range, List.range.loop]
+/-- padding widths for the three forms: `(pH, pW)` before and after on the two plane axes -/
+theorem cpad2 {pad : PArg} (h : (∃ v, pad = .int v) ∨ (∃ a b, pad = .arr [a, b])) :
+    convPad 6 pad 2 = [0, 0, 0, 0, (vals2 0 pad).1, (vals2 0 pad).2, 0, 0, 0, 0, (vals2 0 pad).1, (vals2 0 pad).2] := by
+  rcases h with ⟨v, rfl⟩ | ⟨a, b, rfl⟩ <;> simp [convPad, vals2, List.range, List.range.loop]
 
-theorem convWeight2_shape {w : Arr Int} {Og g Cg KH KW : Nat} (hw : w.shape = [Og * g, Cg, KH, KW]) (hg : 0 < g)
-    (hKH : 0 < KH) (hKW : 0 < KW) {dil : PArg} (hdil : PosForm dil) :
-    ∃ aw, convWeight 2 w dil g = some aw ∧ aw.shape = [Og, g, Cg, (KH - 1) * dilV dil + 1, (KW - 1) * dilV dil + 1] := by
-  have hdiv : Og * g / g = Og := Nat.mul_div_cancel _ hg
-  have hprod : prod w.shape = prod [Og, g, Cg, KH, KW] := by rw [hw]; simp only [prod]; ring
-  have hre := reshapeV_some (a := w) (dst := [Og, g, Cg, KH, KW]) (by simp) hprod
-  unfold convWeight
-  rw [hw, crw2, hdiv, hre]
-  rcases hdil with rfl | ⟨d, hd, rfl⟩
-  · refine ⟨_, rfl, ?_⟩
-    simp [dilV]; omega
-  · refine ⟨_, rfl, ?_⟩
-    obtain ⟨d', rfl⟩ : ∃ d', d = d' + 1 := ⟨d - 1, by omega⟩
-    obtain ⟨KH', rfl⟩ : ∃ K', KH = K' + 1 := ⟨KH - 1, by omega⟩
-    obtain ⟨KW', rfl⟩ : ∃ K', KW = K' + 1 := ⟨KW - 1, by omega⟩
-    simp [dilV, expandV, expandShape, cwa2, convExpandSpacing, posI]
-    constructor <;> ring
+/-- expansion spacings for the integer and the pair form: window axis `-1` (W) gets `dW - 1`, axis `-2` (H) gets `dH - 1` -/
+theorem cexp2 {dil : PArg} (h : (∃ v, dil = .int v) ∨ (∃ a b, dil = .arr [a, b])) :
+    (convWindowAxis 2).zip (convExpandSpacing dil 2) = [(-1, (vals2 1 dil).2 - 1), (-2, (vals2 1 dil).1 - 1)] := by
+  rcases h with ⟨v, rfl⟩ | ⟨a, b, rfl⟩ <;> simp [cwa2, convExpandSpacing, vals2, List.range, List.range.loop]
 
-theorem convInput2_shape {x : Arr Int} {g Cg H W : Nat} (hx : x.shape = [1, g * Cg, H, W]) (hg : 0 < g) {pad : PArg} (hpad : IntForm pad) :
-    ∃ ain, convInput 2 x pad g = .ok ain ∧ ain.shape = [1, 1, g, Cg, H + 2 * padVal pad, W + 2 * padVal pad] := by
-  have hdiv : g * Cg / g = Cg := Nat.mul_div_cancel_left _ hg
-  have hprod : prod x.shape = prod [1, 1, g, Cg, H, W] := by rw [hx]; simp only [prod]; ring
-  have hre := reshapeV_some (a := x) (dst := [1, 1, g, Cg, H, W]) (by simp) hprod
-  unfold convInput
-  rw [hx, cri2, hdiv, hre]
-  rcases hpad with rfl | ⟨p, rfl⟩
-  · exact ⟨_, rfl, by simp [padVal]⟩
-  · simp only [List.length_cons, List.length_nil, Nat.reduceAdd, Nat.zero_add, padV, cpad2]
-    refine ⟨_, rfl, ?_⟩
-    simp [padShape, padVal]; omega
+theorem csteps2 {st : PArg} (h : (∃ v, st = .int v) ∨ (∃ a b, st = .arr [a, b])) :
+    convSteps st 2 = [(vals2 1 st).1, (vals2 1 st).2] := by
+  rcases h with ⟨v, rfl⟩ | ⟨a, b, rfl⟩ <;> simp [convSteps, vals2, List.range, List.range.loop]
 
-theorem convCore2_shape {ain aw : Arr Int} {Og g Cg Hp Wp KHp KWp : Nat} (hain : ain.shape = [1, 1, g, Cg, Hp, Wp])
-    (haw : aw.shape = [Og, g, Cg, KHp, KWp]) (hOg : 0 < Og) (hKH : 0 < KHp) (hKW : 0 < KWp) (hfH : KHp ≤ Hp) (hfW : KWp ≤ Wp) :
-    ∃ rs, convCore 2 ain aw = some rs ∧ rs.shape = [1, Og * g, Hp - (KHp - 1), Wp - (KWp - 1)] := by
-  have e1 : KHp - (KHp - 1) = 1 := by omega
-  have e2 : KWp - (KWp - 1) = 1 := by omega
-  have h1 : max (Hp - (KHp - 1)) 1 = Hp - (KHp - 1) := by omega
-  have h2 : max (Wp - (KWp - 1)) 1 = Wp - (KWp - 1) := by omega
-  have h3 : max 1 Og = Og := by omega
-  have swi : slidingWindowShape [1, 1, g, Cg, Hp, Wp] [KWp, KHp] [-1, -2] = [1, 1, g, Cg, Hp - (KHp - 1), Wp - (KWp - 1), KWp, KHp] := by
-    simp [slidingWindowShape, posI]
-  have sww : slidingWindowShape [Og, g, Cg, KHp, KWp] [KWp, KHp] [-1, -2] = [Og, g, Cg, 1, 1, KWp, KHp] := by
-    simp [slidingWindowShape, posI, e1, e2]
-  have hbs : bshape [1, 1, g, Cg, Hp - (KHp - 1), Wp - (KWp - 1), KWp, KHp] [Og, g, Cg, 1, 1, KWp, KHp]
-      = some [1, Og, g, Cg, Hp - (KHp - 1), Wp - (KWp - 1), KWp, KHp] := by
-    simp [bshape, bshapeRev, h1, h2, h3]
-  unfold convCore
-  simp only [haw, cks2, cwa2, csa2, slidingWindowV, hain, swi, sww, binop, hbs,
-    Option.map_some, Option.bind_some, sumAxes, List.length_cons, List.length_nil, List.map_cons, List.map_nil]
-  have hp7 : posI (0 + 1 + 1 + 1 + 1 + 1 + 1 + 1 + 1) (-1) = 7 := by decide
-  have hp6 : posI (0 + 1 + 1 + 1 + 1 + 1 + 1 + 1 + 1) (-2) = 6 := by decide
-  have hp3 : posI (0 + 1 + 1 + 1 + 1 + 1 + 1 + 1 + 1) (-5) = 3 := by decide
-  have hrm : removeAxes [7, 6, 3] 0 [1, Og, g, Cg, Hp - (KHp - 1), Wp - (KWp - 1), KWp, KHp] = [1, Og, g, Hp - (KHp - 1), Wp - (KWp - 1)] := by
-    simp [removeAxes]
-  simp only [hp7, hp6, hp3, hrm, crr2]
-  rw [reshapeV_some (by simp) (by simp only [prod]; ring)]
-  exact ⟨_, rfl, rfl⟩
-
-theorem convBias2_shape {rs : Arr Int} {O Ho Wo : Nat} (hrs : rs.shape = [1, O, Ho, Wo]) (hHo : 0 < Ho) (hWo : 0 < Wo) (bias : Option (Arr Int))
-    (hb : ∀ b, bias = some b → b.shape = [O]) :
-    ∃ ad, convBias 2 rs bias = some ad ∧ ad.shape = [1, O, Ho, Wo] := by
-  cases bias with
-  | none => exact ⟨rs, rfl, hrs⟩
-  | some b =>
-    have hbs := hb b rfl
-    have h1 : max Ho 1 = Ho := by omega
-    have h2 : max Wo 1 = Wo := by omega
-    have hbsh : bshape [1, O, Ho, Wo] [O, 1, 1] = some [1, O, Ho, Wo] := by simp [bshape, bshapeRev, h1, h2]
-    unfold convBias
-    simp only [hbs, crb2]
-    rw [reshapeV_some (by simp) (by rw [hbs]; simp only [prod])]
-    simp only [Option.bind_some, binop, hrs, hbsh, Option.map_some]
-    exact ⟨_, rfl, rfl⟩
-
-theorem convStride2_shape {ad : Arr Int} {O Ho Wo : Nat} (had : ad.shape = [1, O, Ho, Wo]) {stride : PArg} (hs : PosForm stride) :
-    (convStride 2 ad stride).shape
-      = [1, O, (Ho + strideVal stride - 1) / strideVal stride, (Wo + strideVal stride - 1) / strideVal stride] := by
-  rcases hs with rfl | ⟨s, hs, rfl⟩
-  · simp [convStride, strideVal, had]
-  · simp [convStride, strideVal, sliceStepV, sliceStepShape, convSteps, had]
-
-/-- conv2d: the pipeline is defined and has the standard extents (None / integer forms of stride, padding, dilation) -/
-theorem convnd2_shape {x w : Arr Int} {bias : Option (Arr Int)} {Og g Cg H W KH KW : Nat} {stride padding dilation : PArg}
-    (hx : x.shape = [1, g * Cg, H, W]) (hw : w.shape = [Og * g, Cg, KH, KW]) (hb : ∀ b, bias = some b → b.shape = [Og * g])
-    (hOg : 0 < Og) (hg : 0 < g) (hKH : 0 < KH) (hKW : 0 < KW) (hs : PosForm stride) (hp : IntForm padding) (hd : PosForm dilation)
-    (hfH : (KH - 1) * dilV dilation + 1 ≤ H + 2 * padVal padding) (hfW : (KW - 1) * dilV dilation + 1 ≤ W + 2 * padVal padding) :
-    ∃ r, convnd 2 x w bias stride padding dilation g = .ok r ∧
-      r.shape = [1, Og * g, outSize H KH (strideVal stride) (padVal padding) (dilV dilation),
-                 outSize W KW (strideVal stride) (padVal padding) (dilV dilation)] := by
-  have hsp := strideVal_pos hs
-  obtain ⟨aw, haw, haws⟩ := convWeight2_shape hw hg hKH hKW hd
-  obtain ⟨ain, hain, hains⟩ := convInput2_shape hx hg hp
-  obtain ⟨rs, hrs, hrss⟩ := convCore2_shape hains haws hOg (Nat.succ_pos _) (Nat.succ_pos _) hfH hfW
-  obtain ⟨ad, had, hads⟩ := convBias2_shape hrss (by omega) (by omega) bias hb
-  refine ⟨convStride 2 ad stride, ?_, ?_⟩
-  · unfold convnd
-    rw [haw, hain]
-    simp only [hrs, Option.bind_some, had]
-  · rw [convStride2_shape hads hs, out_arith hsp hfH, out_arith hsp hfW]
-
-/-! ### element level -/
+/-! ### sums -/
 
 theorem sumTo_add_fn (n : Nat) (f g : Nat → Int) : sumTo n (fun i => f i + g i) = sumTo n f + sumTo n g := by
   induction n with
@@ -154,28 +86,30 @@ theorem listSum_allIdx3 (A B C : Nat) (f : Idx → Int) :
   rw [List.map_map]
   exact listSum_allIdx2 B C (fun r => f (i :: r))
 
+/-! ### reshapes as index maps -/
+
 theorem rsh_weight2 {Og g Cg KH KW a b c kh kw : Nat} (ha : a < Og) (hb : b < g) (hc : c < Cg) (hkh : kh < KH) (hkw : kw < KW) :
     reshapeIdx [Og * g, Cg, KH, KW] [Og, g, Cg, KH, KW] [a, b, c, kh, kw] = [a * g + b, c, kh, kw] := by
   apply reshapeIdx_eq
   · simp only [InShape]; exact ⟨lt_mul_of_lt ha hb, hc, hkh, hkw, trivial⟩
   · simp only [computeOffset, strides, prod]; ring
 
-theorem rsh_input2 {g Cg H W b c i j : Nat} (hb : b < g) (hc : c < Cg) (hi : i < H) (hj : j < W) :
-    reshapeIdx [1, g * Cg, H, W] [1, 1, g, Cg, H, W] [0, 0, b, c, i, j] = [0, b * Cg + c, i, j] := by
+theorem rsh_input2 {N g Cg H W n b c i j : Nat} (hn : n < N) (hb : b < g) (hc : c < Cg) (hi : i < H) (hj : j < W) :
+    reshapeIdx [N, g * Cg, H, W] [N, 1, g, Cg, H, W] [n, 0, b, c, i, j] = [n, b * Cg + c, i, j] := by
   apply reshapeIdx_eq
-  · simp only [InShape]; refine ⟨by omega, ?_, hi, hj, trivial⟩
-    exact lt_mul_of_lt (a := b) (b := c) (Og := g) (g := Cg) hb hc
+  · simp only [InShape]; exact ⟨hn, lt_mul_of_lt hb hc, hi, hj, trivial⟩
   · simp only [computeOffset, strides, prod]; ring
 
-theorem rsh_reduce2 {Og g Ho Wo o i j : Nat} (hg : 0 < g) (ho : o < Og * g) (hi : i < Ho) (hj : j < Wo) :
-    reshapeIdx [1, Og, g, Ho, Wo] [1, Og * g, Ho, Wo] [0, o, i, j] = [0, o / g, o % g, i, j] := by
+theorem rsh_reduce2 {N Og g Ho Wo n o i j : Nat} (hg : 0 < g) (hn : n < N) (ho : o < Og * g) (hi : i < Ho) (hj : j < Wo) :
+    reshapeIdx [N, Og, g, Ho, Wo] [N, Og * g, Ho, Wo] [n, o, i, j] = [n, o / g, o % g, i, j] := by
   apply reshapeIdx_eq
   · simp only [InShape]
-    exact ⟨by omega, (Nat.div_lt_iff_lt_mul hg).2 ho, Nat.mod_lt _ hg, hi, hj, trivial⟩
+    exact ⟨hn, (Nat.div_lt_iff_lt_mul hg).2 ho, Nat.mod_lt _ hg, hi, hj, trivial⟩
   · simp only [computeOffset, strides, prod]
     have := Nat.div_add_mod o g
-    calc Og * g * (Ho * (Wo * 1)) * 0 + (Ho * (Wo * 1) * o + (Wo * 1 * i + (1 * j + 0))) = Ho * Wo * o + (Wo * i + j) := by ring
-      _ = Ho * Wo * (g * (o / g) + o % g) + (Wo * i + j) := by rw [this]
+    calc Og * g * (Ho * (Wo * 1)) * n + (Ho * (Wo * 1) * o + (Wo * 1 * i + (1 * j + 0)))
+        = Og * g * Ho * Wo * n + (Ho * Wo * o + (Wo * i + j)) := by ring
+      _ = Og * g * Ho * Wo * n + (Ho * Wo * (g * (o / g) + o % g) + (Wo * i + j)) := by rw [this]
       _ = _ := by ring
 
 theorem rsh_bias2 {O o : Nat} (ho : o < O) : reshapeIdx [O] [O, 1, 1] [o, 0, 0] = [o] := by
@@ -183,6 +117,7 @@ theorem rsh_bias2 {O o : Nat} (ho : o < O) : reshapeIdx [O] [O, 1, 1] [o, 0, 0] 
   · simp only [InShape]; exact ⟨ho, trivial⟩
   · simp only [computeOffset, strides, prod]
 
+/-! ### stage 1: the weight -/
 
 def rwArr2 (w : Arr Int) (Og g Cg KH KW : Nat) : Arr Int :=
   ⟨[Og, g, Cg, KH, KW], fun d => w.get (reshapeIdx w.shape [Og, g, Cg, KH, KW] d)⟩
@@ -201,105 +136,129 @@ theorem convWeight2_eq {w : Arr Int} {Og g Cg KH KW : Nat} (hw : w.shape = [Og *
   rw [hw, crw2, hdiv, hre]
   cases dil <;> rfl
 
-theorem awArr2_shape {w : Arr Int} {Og g Cg KH KW : Nat} (hKH : 0 < KH) (hKW : 0 < KW) {dil : PArg} (hdil : PosForm dil) :
-    (awArr2 w Og g Cg KH KW dil).shape = [Og, g, Cg, (KH - 1) * dilV dil + 1, (KW - 1) * dilV dil + 1] := by
-  rcases hdil with rfl | ⟨d, hd, rfl⟩
-  · simp [awArr2, rwArr2, dilV]; omega
-  · obtain ⟨d', rfl⟩ : ∃ d', d = d' + 1 := ⟨d - 1, by omega⟩
-    obtain ⟨KH', rfl⟩ : ∃ K', KH = K' + 1 := ⟨KH - 1, by omega⟩
-    obtain ⟨KW', rfl⟩ : ∃ K', KW = K' + 1 := ⟨KW - 1, by omega⟩
-    simp [awArr2, rwArr2, dilV, expandV, expandShape, cwa2, convExpandSpacing, posI]
-    constructor <;> ring
-
-theorem div_lt_of_lt_dil {k' K d : Nat} (hK : 0 < K) (hd : 0 < d) (h : k' < (K - 1) * d + 1) : k' / d < K := by
+theorem dil_arith (K d : Nat) (hK : 0 < K) (hd : 0 < d) : K + (K - 1) * (d - 1) = (K - 1) * d + 1 := by
+  obtain ⟨d', rfl⟩ : ∃ d', d = d' + 1 := ⟨d - 1, by omega⟩
   obtain ⟨K', rfl⟩ : ∃ K', K = K' + 1 := ⟨K - 1, by omega⟩
-  rw [Nat.div_lt_iff_lt_mul hd]
-  have e : (K' + 1) * d = K' * d + d := by ring
-  simp only [Nat.add_sub_cancel] at h
-  rw [e]; omega
+  simp only [Nat.add_sub_cancel]; ring
 
-theorem expandIdx_2 (sp a b c kh kw : Nat) :
-    expandIdx 5 [(-1, sp), (-2, sp)] [a, b, c, kh, kw]
-      = if kw % (sp + 1) ≠ 0 then none else (if kh % (sp + 1) ≠ 0 then none else some [a, b, c, kh / (sp + 1), kw / (sp + 1)]) := by
+theorem awArr2_shape {w : Arr Int} {Og g Cg KH KW : Nat} (hKH : 0 < KH) (hKW : 0 < KW) {dil : PArg} (hdil : PosForm2 dil) :
+    (awArr2 w Og g Cg KH KW dil).shape = [Og, g, Cg, (KH - 1) * (vals2 1 dil).1 + 1, (KW - 1) * (vals2 1 dil).2 + 1] := by
+  rcases hdil with rfl | ⟨d, hd, rfl⟩ | ⟨dh, dw, hh, hw', rfl⟩
+  · simp [awArr2, rwArr2, vals2]; omega
+  · have e1 := dil_arith KH d hKH hd
+    have e2 := dil_arith KW d hKW hd
+    simp [awArr2, rwArr2, vals2, expandV, expandShape, cwa2, convExpandSpacing, posI, List.range, List.range.loop, e1, e2]
+  · have e1 := dil_arith KH dh hKH hh
+    have e2 := dil_arith KW dw hKW hw'
+    simp [awArr2, rwArr2, vals2, expandV, expandShape, cwa2, convExpandSpacing, posI, List.range, List.range.loop, e1, e2]
+
+theorem expandIdx_2 (spW spH a b c kh kw : Nat) :
+    expandIdx 5 [(-1, spW), (-2, spH)] [a, b, c, kh, kw]
+      = if kw % (spW + 1) ≠ 0 then none else (if kh % (spH + 1) ≠ 0 then none else some [a, b, c, kh / (spH + 1), kw / (spW + 1)]) := by
   have p1 : posI 5 (-1) = 4 := by decide
   have p2 : posI 5 (-2) = 3 := by decide
   simp only [expandIdx, p1, p2, List.getD_cons_zero, List.getD_cons_succ, List.set_cons_succ, List.set_cons_zero]
 
 theorem awArr2_get {w : Arr Int} {Og g Cg KH KW : Nat} (hw : w.shape = [Og * g, Cg, KH, KW]) (hKH : 0 < KH) (hKW : 0 < KW)
-    {dil : PArg} (hdil : PosForm dil) {a b c kh kw : Nat} (ha : a < Og) (hb : b < g) (hc : c < Cg)
-    (hkh : kh < (KH - 1) * dilV dil + 1) (hkw : kw < (KW - 1) * dilV dil + 1) :
+    {dil : PArg} (hdil : PosForm2 dil) {a b c kh kw : Nat} (ha : a < Og) (hb : b < g) (hc : c < Cg)
+    (hkh : kh < (KH - 1) * (vals2 1 dil).1 + 1) (hkw : kw < (KW - 1) * (vals2 1 dil).2 + 1) :
     (awArr2 w Og g Cg KH KW dil).get [a, b, c, kh, kw]
-      = if kw % dilV dil = 0 then (if kh % dilV dil = 0 then w.get [a * g + b, c, kh / dilV dil, kw / dilV dil] else 0) else 0 := by
-  rcases hdil with rfl | ⟨d, hd, rfl⟩
-  · simp only [dilV, Nat.mul_one] at hkh hkw ⊢
-    simp only [Nat.mod_one, if_true, Nat.div_one, awArr2, rwArr2, hw]
-    rw [rsh_weight2 ha hb hc (by omega) (by omega)]
-  · simp only [dilV] at hkh hkw ⊢
-    have h1 := div_lt_of_lt_dil hKH hd hkh
-    have h2 := div_lt_of_lt_dil hKW hd hkw
-    obtain ⟨d', rfl⟩ : ∃ d', d = d' + 1 := ⟨d - 1, by omega⟩
-    have hz : (convWindowAxis 2).zip (convExpandSpacing (.int (d' + 1)) 2) = [(-1, d'), (-2, d')] := by
-      simp [cwa2, convExpandSpacing]
-    simp only [awArr2, expandV, expandGet, hz]
+      = if kw % (vals2 1 dil).2 = 0 then
+          (if kh % (vals2 1 dil).1 = 0 then w.get [a * g + b, c, kh / (vals2 1 dil).1, kw / (vals2 1 dil).2] else 0)
+        else 0 := by
+  have hpos := vals2_pos hdil
+  have h1 := div_lt_of_lt_dil hKH hpos.1 hkh
+  have h2 := div_lt_of_lt_dil hKW hpos.2 hkw
+  have expanded : ∀ (dil : PArg), ((∃ v, dil = .int v) ∨ (∃ a b, dil = .arr [a, b])) →
+      0 < (vals2 1 dil).1 → 0 < (vals2 1 dil).2 → kh / (vals2 1 dil).1 < KH → kw / (vals2 1 dil).2 < KW →
+      expandGet (rwArr2 w Og g Cg KH KW) (convWindowAxis 2) (convExpandSpacing dil 2) [a, b, c, kh, kw]
+        = if kw % (vals2 1 dil).2 = 0 then
+            (if kh % (vals2 1 dil).1 = 0 then w.get [a * g + b, c, kh / (vals2 1 dil).1, kw / (vals2 1 dil).2] else 0)
+          else 0 := by
+    intro dil hf hp1 hp2 h1 h2
+    generalize hdH : (vals2 1 dil).1 = dH at *
+    generalize hdW : (vals2 1 dil).2 = dW at *
+    have hz := cexp2 hf
+    rw [hdH, hdW] at hz
+    obtain ⟨dH', rfl⟩ : ∃ d', dH = d' + 1 := ⟨dH - 1, by omega⟩
+    obtain ⟨dW', rfl⟩ : ∃ d', dW = d' + 1 := ⟨dW - 1, by omega⟩
+    simp only [Nat.add_sub_cancel] at hz
+    simp only [expandGet, hz]
     simp only [rwArr2, List.length_cons, List.length_nil, Nat.reduceAdd, Nat.zero_add, expandIdx_2]
-    by_cases hm : kw % (d' + 1) = 0
-    · by_cases hm2 : kh % (d' + 1) = 0
+    by_cases hm : kw % (dW' + 1) = 0
+    · by_cases hm2 : kh % (dH' + 1) = 0
       · simp only [hm, hm2, ne_eq, not_true_eq_false, if_false, if_true, hw]
         rw [rsh_weight2 ha hb hc h1 h2]
       · simp only [hm, hm2, ne_eq, not_true_eq_false, not_false_eq_true, if_false, if_true]
     · simp only [hm, ne_eq, not_false_eq_true, if_true, if_false]
+  rcases hdil with rfl | ⟨d, hd, rfl⟩ | ⟨dh, dw, hh, hw', rfl⟩
+  · simp only [vals2, Nat.mul_one] at hkh hkw ⊢
+    simp only [Nat.mod_one, if_true, Nat.div_one, awArr2, rwArr2, hw]
+    rw [rsh_weight2 ha hb hc (by omega) (by omega)]
+  · exact expanded (.int d) (Or.inl ⟨d, rfl⟩) hpos.1 hpos.2 h1 h2
+  · exact expanded (.arr [dh, dw]) (Or.inr ⟨dh, dw, rfl⟩) hpos.1 hpos.2 h1 h2
 
+/-! ### stage 2: the input -/
 
-def rinArr2 (x : Arr Int) (g Cg H W : Nat) : Arr Int :=
-  ⟨[1, 1, g, Cg, H, W], fun d => x.get (reshapeIdx x.shape [1, 1, g, Cg, H, W] d)⟩
+def rinArr2 (x : Arr Int) (N g Cg H W : Nat) : Arr Int :=
+  ⟨[N, 1, g, Cg, H, W], fun d => x.get (reshapeIdx x.shape [N, 1, g, Cg, H, W] d)⟩
 
-def ainArr2 (x : Arr Int) (g Cg H W : Nat) (pad : PArg) : Arr Int :=
+def ainArr2 (x : Arr Int) (N g Cg H W : Nat) (pad : PArg) : Arr Int :=
   match pad with
-  | .none => rinArr2 x g Cg H W
-  | _ => ⟨[1, 1, g, Cg, H + padVal pad + padVal pad, W + padVal pad + padVal pad],
-          padGet (rinArr2 x g Cg H W) [0, 0, 0, 0, padVal pad, padVal pad]⟩
+  | .none => rinArr2 x N g Cg H W
+  | _ => ⟨[N, 1, g, Cg, H + (vals2 0 pad).1 + (vals2 0 pad).1, W + (vals2 0 pad).2 + (vals2 0 pad).2],
+          padGet (rinArr2 x N g Cg H W) [0, 0, 0, 0, (vals2 0 pad).1, (vals2 0 pad).2]⟩
 
-theorem convInput2_eq {x : Arr Int} {g Cg H W : Nat} (hx : x.shape = [1, g * Cg, H, W]) (hg : 0 < g) {pad : PArg} (hpad : IntForm pad) :
-    convInput 2 x pad g = .ok (ainArr2 x g Cg H W pad) := by
+theorem convInput2_eq {x : Arr Int} {N g Cg H W : Nat} (hx : x.shape = [N, g * Cg, H, W]) (hg : 0 < g) {pad : PArg} (hpad : Form2 pad) :
+    convInput 2 x pad g = .ok (ainArr2 x N g Cg H W pad) := by
   have hdiv : g * Cg / g = Cg := Nat.mul_div_cancel_left _ hg
-  have hprod : prod x.shape = prod [1, 1, g, Cg, H, W] := by rw [hx]; simp only [prod]; ring
-  have hre := reshapeV_some (a := x) (dst := [1, 1, g, Cg, H, W]) (by simp) hprod
+  have hprod : prod x.shape = prod [N, 1, g, Cg, H, W] := by rw [hx]; simp only [prod]; ring
+  have hre := reshapeV_some (a := x) (dst := [N, 1, g, Cg, H, W]) (by simp) hprod
   unfold convInput
   rw [hx, cri2, hdiv, hre]
-  rcases hpad with rfl | ⟨p, rfl⟩
+  rcases hpad with rfl | ⟨p, rfl⟩ | ⟨ph, pw, rfl⟩
   · rfl
-  · simp only [List.length_cons, List.length_nil, Nat.reduceAdd, Nat.zero_add, padV, cpad2]
-    simp [ainArr2, padVal, padShape, rinArr2]
+  · simp only [List.length_cons, List.length_nil, Nat.reduceAdd, Nat.zero_add, padV, cpad2 (Or.inl ⟨p, rfl⟩)]
+    simp [ainArr2, vals2, padShape, rinArr2]
+  · simp only [List.length_cons, List.length_nil, Nat.reduceAdd, Nat.zero_add, padV, cpad2 (Or.inr ⟨ph, pw, rfl⟩)]
+    simp [ainArr2, vals2, padShape, rinArr2]
 
-theorem ainArr2_shape {x : Arr Int} {g Cg H W : Nat} {pad : PArg} (hpad : IntForm pad) :
-    (ainArr2 x g Cg H W pad).shape = [1, 1, g, Cg, H + 2 * padVal pad, W + 2 * padVal pad] := by
-  rcases hpad with rfl | ⟨p, rfl⟩
-  · simp [ainArr2, rinArr2, padVal]
-  · simp [ainArr2, padVal]; omega
+theorem ainArr2_shape {x : Arr Int} {N g Cg H W : Nat} {pad : PArg} (hpad : Form2 pad) :
+    (ainArr2 x N g Cg H W pad).shape = [N, 1, g, Cg, H + 2 * (vals2 0 pad).1, W + 2 * (vals2 0 pad).2] := by
+  rcases hpad with rfl | ⟨p, rfl⟩ | ⟨ph, pw, rfl⟩
+  · simp [ainArr2, rinArr2, vals2]
+  · simp [ainArr2, vals2]; omega
+  · simp [ainArr2, vals2]; omega
 
-theorem padIdx_2d {g Cg H W p b c i j : Nat} (hb : b < g) (hc : c < Cg) :
-    padIdx [0, 0, b, c, i, j] [1, 1, g, Cg, H, W] [0, 0, 0, 0, p, p]
-      = if (i < p ∨ i ≥ H + p) ∨ (j < p ∨ j ≥ W + p) then none else some [0, 0, b, c, i - p, j - p] := by
+theorem padIdx_2d {N g Cg H W pH pW n b c i j : Nat} (hn : n < N) (hb : b < g) (hc : c < Cg) :
+    padIdx [n, 0, b, c, i, j] [N, 1, g, Cg, H, W] [0, 0, 0, 0, pH, pW]
+      = if (i < pH ∨ i ≥ H + pH) ∨ (j < pW ∨ j ≥ W + pW) then none else some [n, 0, b, c, i - pH, j - pW] := by
+  have h1 : ¬ N ≤ n := by omega
   have h2 : ¬ g ≤ b := by omega
   have h3 : ¬ Cg ≤ c := by omega
-  by_cases h : i < p ∨ i ≥ H + p <;> by_cases h' : j < p ∨ j ≥ W + p <;> simp [padIdx, h2, h3, h, h']
+  by_cases h : i < pH ∨ i ≥ H + pH <;> by_cases h' : j < pW ∨ j ≥ W + pW <;> simp [padIdx, h1, h2, h3, h, h']
 
-theorem ainArr2_get {x : Arr Int} {g Cg H W : Nat} (hx : x.shape = [1, g * Cg, H, W]) {pad : PArg} (hpad : IntForm pad)
-    {b c i j : Nat} (hb : b < g) (hc : c < Cg) (hi : i < H + 2 * padVal pad) (hj : j < W + 2 * padVal pad) :
-    (ainArr2 x g Cg H W pad).get [0, 0, b, c, i, j] = padRead2 x H W (padVal pad) (b * Cg + c) i j := by
-  rcases hpad with rfl | ⟨p, rfl⟩
-  · simp only [padVal, Nat.mul_zero, Nat.add_zero] at hi hj
-    simp only [ainArr2, rinArr2, padRead2, padVal, hx, Nat.zero_le, true_and, Nat.add_zero, hi, hj, and_self, if_true, Nat.sub_zero]
-    rw [rsh_input2 hb hc hi hj]
-  · simp only [padVal] at hi hj
-    simp only [ainArr2, padVal, padGet, padRead2, rinArr2, padIdx_2d hb hc]
-    by_cases h : (p ≤ i ∧ i < H + p) ∧ (p ≤ j ∧ j < W + p)
-    · have h1 : ¬ ((i < p ∨ i ≥ H + p) ∨ (j < p ∨ j ≥ W + p)) := by omega
+theorem ainArr2_get {x : Arr Int} {N g Cg H W : Nat} (hx : x.shape = [N, g * Cg, H, W]) {pad : PArg} (hpad : Form2 pad)
+    {n b c i j : Nat} (hn : n < N) (hb : b < g) (hc : c < Cg) (hi : i < H + 2 * (vals2 0 pad).1) (hj : j < W + 2 * (vals2 0 pad).2) :
+    (ainArr2 x N g Cg H W pad).get [n, 0, b, c, i, j] = padRead2 x H W (vals2 0 pad).1 (vals2 0 pad).2 n (b * Cg + c) i j := by
+  have padded : ∀ pH pW, i < H + 2 * pH → j < W + 2 * pW →
+      padGet (rinArr2 x N g Cg H W) [0, 0, 0, 0, pH, pW] [n, 0, b, c, i, j] = padRead2 x H W pH pW n (b * Cg + c) i j := by
+    intro pH pW hi hj
+    simp only [padGet, padRead2, rinArr2, padIdx_2d hn hb hc]
+    by_cases h : (pH ≤ i ∧ i < H + pH) ∧ (pW ≤ j ∧ j < W + pW)
+    · have h1 : ¬ ((i < pH ∨ i ≥ H + pH) ∨ (j < pW ∨ j ≥ W + pW)) := by omega
       simp only [h1, if_false, h, and_self, if_true, hx]
-      rw [rsh_input2 hb hc (by omega) (by omega)]
-    · have h1 : ((i < p ∨ i ≥ H + p) ∨ (j < p ∨ j ≥ W + p)) := by omega
+      rw [rsh_input2 hn hb hc (by omega) (by omega)]
+    · have h1 : ((i < pH ∨ i ≥ H + pH) ∨ (j < pW ∨ j ≥ W + pW)) := by omega
       simp only [h1, if_true, h, if_false]
+  rcases hpad with rfl | ⟨p, rfl⟩ | ⟨ph, pw, rfl⟩
+  · simp only [vals2, Nat.mul_zero, Nat.add_zero] at hi hj
+    simp only [ainArr2, rinArr2, padRead2, vals2, hx, Nat.zero_le, true_and, Nat.add_zero, hi, hj, and_self, if_true, Nat.sub_zero]
+    rw [rsh_input2 hn hb hc hi hj]
+  · exact padded p p hi hj
+  · exact padded ph pw hi hj
 
+/-! ### stage 3: windows, multiply, sum, merge groups -/
 
 theorem sw_idx6 (n0 n1 b c i j kw kh : Nat) :
     slidingWindowIdx 6 [-1, -2] [n0, n1, b, c, i, j, kw, kh] = [n0, n1, b, c, i + kh, j + kw] := by
@@ -312,23 +271,23 @@ theorem sw_idx5' (a b c z1 z2 kw kh : Nat) :
 theorem merge8 (n a b i j c kw kh : Nat) : mergeIdx [7, 6, 3] 8 0 [n, a, b, i, j] [c, kw, kh] = [n, a, b, c, i, j, kw, kh] := by
   simp [mergeIdx]
 
-theorem convCore2 {ain aw : Arr Int} {Og g Cg Hp Wp KHp KWp : Nat} (hain : ain.shape = [1, 1, g, Cg, Hp, Wp])
+theorem convCore2 {ain aw : Arr Int} {N Og g Cg Hp Wp KHp KWp : Nat} (hain : ain.shape = [N, 1, g, Cg, Hp, Wp])
     (haw : aw.shape = [Og, g, Cg, KHp, KWp]) (hOg : 0 < Og) (hg : 0 < g) (hKH : 0 < KHp) (hKW : 0 < KWp) (hfH : KHp ≤ Hp) (hfW : KWp ≤ Wp) :
-    ∃ rs, convCore 2 ain aw = some rs ∧ rs.shape = [1, Og * g, Hp - (KHp - 1), Wp - (KWp - 1)] ∧
-      ∀ o i j, o < Og * g → i < Hp - (KHp - 1) → j < Wp - (KWp - 1) →
-        rs.get [0, o, i, j] = sumTo Cg (fun c => sumTo KWp (fun kw => sumTo KHp (fun kh =>
-          ain.get [0, 0, o % g, c, i + kh, j + kw] * aw.get [o / g, o % g, c, kh, kw]))) := by
+    ∃ rs, convCore 2 ain aw = some rs ∧ rs.shape = [N, Og * g, Hp - (KHp - 1), Wp - (KWp - 1)] ∧
+      ∀ n o i j, n < N → o < Og * g → i < Hp - (KHp - 1) → j < Wp - (KWp - 1) →
+        rs.get [n, o, i, j] = sumTo Cg (fun c => sumTo KWp (fun kw => sumTo KHp (fun kh =>
+          ain.get [n, 0, o % g, c, i + kh, j + kw] * aw.get [o / g, o % g, c, kh, kw]))) := by
   have e1 : KHp - (KHp - 1) = 1 := by omega
   have e2 : KWp - (KWp - 1) = 1 := by omega
   have h1 : max (Hp - (KHp - 1)) 1 = Hp - (KHp - 1) := by omega
   have h2 : max (Wp - (KWp - 1)) 1 = Wp - (KWp - 1) := by omega
   have h3 : max 1 Og = Og := by omega
-  have swi : slidingWindowShape [1, 1, g, Cg, Hp, Wp] [KWp, KHp] [-1, -2] = [1, 1, g, Cg, Hp - (KHp - 1), Wp - (KWp - 1), KWp, KHp] := by
+  have swi : slidingWindowShape [N, 1, g, Cg, Hp, Wp] [KWp, KHp] [-1, -2] = [N, 1, g, Cg, Hp - (KHp - 1), Wp - (KWp - 1), KWp, KHp] := by
     simp [slidingWindowShape, posI]
   have sww : slidingWindowShape [Og, g, Cg, KHp, KWp] [KWp, KHp] [-1, -2] = [Og, g, Cg, 1, 1, KWp, KHp] := by
     simp [slidingWindowShape, posI, e1, e2]
-  have hbs : bshape [1, 1, g, Cg, Hp - (KHp - 1), Wp - (KWp - 1), KWp, KHp] [Og, g, Cg, 1, 1, KWp, KHp]
-      = some [1, Og, g, Cg, Hp - (KHp - 1), Wp - (KWp - 1), KWp, KHp] := by
+  have hbs : bshape [N, 1, g, Cg, Hp - (KHp - 1), Wp - (KWp - 1), KWp, KHp] [Og, g, Cg, 1, 1, KWp, KHp]
+      = some [N, Og, g, Cg, Hp - (KHp - 1), Wp - (KWp - 1), KWp, KHp] := by
     simp [bshape, bshapeRev, h1, h2, h3]
   unfold convCore
   simp only [haw, cks2, cwa2, csa2, slidingWindowV, hain, swi, sww, binop, hbs,
@@ -336,132 +295,152 @@ theorem convCore2 {ain aw : Arr Int} {Og g Cg Hp Wp KHp KWp : Nat} (hain : ain.s
   have hp7 : posI (0 + 1 + 1 + 1 + 1 + 1 + 1 + 1 + 1) (-1) = 7 := by decide
   have hp6 : posI (0 + 1 + 1 + 1 + 1 + 1 + 1 + 1 + 1) (-2) = 6 := by decide
   have hp3 : posI (0 + 1 + 1 + 1 + 1 + 1 + 1 + 1 + 1) (-5) = 3 := by decide
-  have hrm : removeAxes [7, 6, 3] 0 [1, Og, g, Cg, Hp - (KHp - 1), Wp - (KWp - 1), KWp, KHp] = [1, Og, g, Hp - (KHp - 1), Wp - (KWp - 1)] := by
+  have hrm : removeAxes [7, 6, 3] 0 [N, Og, g, Cg, Hp - (KHp - 1), Wp - (KWp - 1), KWp, KHp] = [N, Og, g, Hp - (KHp - 1), Wp - (KWp - 1)] := by
     simp [removeAxes]
-  have hpk : pickAxes [7, 6, 3] 0 [1, Og, g, Cg, Hp - (KHp - 1), Wp - (KWp - 1), KWp, KHp] = [Cg, KWp, KHp] := by
+  have hpk : pickAxes [7, 6, 3] 0 [N, Og, g, Cg, Hp - (KHp - 1), Wp - (KWp - 1), KWp, KHp] = [Cg, KWp, KHp] := by
     simp [pickAxes]
   simp only [hp7, hp6, hp3, hrm, hpk, crr2]
   rw [reshapeV_some (by simp) (by simp only [prod]; ring)]
   refine ⟨_, rfl, rfl, ?_⟩
-  intro o i j ho hi hj
+  intro n o i j hn ho hi hj
   simp only []
-  rw [rsh_reduce2 hg ho hi hj, listSum_allIdx3]
+  rw [rsh_reduce2 hg hn ho hi hj, listSum_allIdx3]
   apply sumTo_congr; intro c hc
   apply sumTo_congr; intro kw hkw
   apply sumTo_congr; intro kh hkh
   have hb : o % g < g := Nat.mod_lt _ hg
   have ha : o / g < Og := (Nat.div_lt_iff_lt_mul hg).2 ho
   simp only [Nat.reduceAdd, Nat.zero_add, merge8, bIdx, List.length_cons, List.length_nil, Nat.sub_self, List.drop_zero, List.drop_succ_cons,
-    List.zipWith_cons_cons, List.zipWith_nil_right, if_true, bsel hb, bsel hc, bsel hi, bsel hj, bsel hkw, bsel hkh, bsel ha, sw_idx6, sw_idx5', Nat.zero_add]
+    List.zipWith_cons_cons, List.zipWith_nil_right, if_true, bsel hn, bsel hb, bsel hc, bsel hi, bsel hj, bsel hkw, bsel hkh, bsel ha,
+    sw_idx6, sw_idx5', Nat.zero_add]
 
+/-! ### stage 4: bias and stride -/
 
-theorem convBias2 {rs : Arr Int} {O Ho Wo : Nat} (hrs : rs.shape = [1, O, Ho, Wo]) (hHo : 0 < Ho) (hWo : 0 < Wo) (bias : Option (Arr Int))
+theorem convBias2 {rs : Arr Int} {N O Ho Wo : Nat} (hrs : rs.shape = [N, O, Ho, Wo]) (hHo : 0 < Ho) (hWo : 0 < Wo) (bias : Option (Arr Int))
     (hb : ∀ b, bias = some b → b.shape = [O]) :
-    ∃ ad, convBias 2 rs bias = some ad ∧ ad.shape = [1, O, Ho, Wo] ∧
-      ∀ o i j, o < O → i < Ho → j < Wo → ad.get [0, o, i, j] = rs.get [0, o, i, j] + biasVal bias o := by
+    ∃ ad, convBias 2 rs bias = some ad ∧ ad.shape = [N, O, Ho, Wo] ∧
+      ∀ n o i j, n < N → o < O → i < Ho → j < Wo → ad.get [n, o, i, j] = rs.get [n, o, i, j] + biasVal bias o := by
   cases bias with
-  | none => exact ⟨rs, rfl, hrs, fun o i j _ _ _ => by simp [biasVal]⟩
+  | none => exact ⟨rs, rfl, hrs, fun n o i j _ _ _ _ => by simp [biasVal]⟩
   | some b =>
     have hbs := hb b rfl
     have h1 : max Ho 1 = Ho := by omega
     have h2 : max Wo 1 = Wo := by omega
-    have hbsh : bshape [1, O, Ho, Wo] [O, 1, 1] = some [1, O, Ho, Wo] := by simp [bshape, bshapeRev, h1, h2]
+    have hbsh : bshape [N, O, Ho, Wo] [O, 1, 1] = some [N, O, Ho, Wo] := by simp [bshape, bshapeRev, h1, h2]
     unfold convBias
     simp only [hbs, crb2]
     rw [reshapeV_some (by simp) (by rw [hbs]; simp only [prod])]
     simp only [Option.bind_some, binop, hrs, hbsh, Option.map_some]
     refine ⟨_, rfl, rfl, ?_⟩
-    intro o i j ho hi hj
+    intro n o i j hn ho hi hj
     simp only [biasVal, hbs, bIdx, List.length_cons, List.length_nil, Nat.reduceAdd, Nat.zero_add, Nat.sub_self, List.drop_zero,
-      Nat.reduceSub, List.drop_succ_cons, List.zipWith_cons_cons, List.zipWith_nil_right, if_true, bsel ho, bsel hi, bsel hj,
+      Nat.reduceSub, List.drop_succ_cons, List.zipWith_cons_cons, List.zipWith_nil_right, if_true, bsel hn, bsel ho, bsel hi, bsel hj,
       rsh_bias2 ho]
 
-theorem convStride2 {ad : Arr Int} {O Ho Wo : Nat} (had : ad.shape = [1, O, Ho, Wo]) {stride : PArg} (hs : PosForm stride) :
-    ∀ o i j, (convStride 2 ad stride).get [0, o, i, j] = ad.get [0, o, i * strideVal stride, j * strideVal stride] := by
-  rcases hs with rfl | ⟨s, hs, rfl⟩
-  · simp [convStride, strideVal]
-  · simp [convStride, strideVal, sliceStepV, sliceStepIdx, convSteps, had]
+theorem convStride2 {ad : Arr Int} {N O Ho Wo : Nat} (had : ad.shape = [N, O, Ho, Wo]) {stride : PArg} (hs : Form2 stride) :
+    (convStride 2 ad stride).shape
+        = [N, O, (Ho + (vals2 1 stride).1 - 1) / (vals2 1 stride).1, (Wo + (vals2 1 stride).2 - 1) / (vals2 1 stride).2] ∧
+      ∀ n o i j, (convStride 2 ad stride).get [n, o, i, j] = ad.get [n, o, i * (vals2 1 stride).1, j * (vals2 1 stride).2] := by
+  rcases hs with rfl | ⟨s, rfl⟩ | ⟨sh, sw, rfl⟩
+  · simp [convStride, vals2, had]
+  · simp [convStride, vals2, sliceStepV, sliceStepShape, sliceStepIdx, csteps2 (Or.inl ⟨s, rfl⟩), had]
+  · simp [convStride, vals2, sliceStepV, sliceStepShape, sliceStepIdx, csteps2 (Or.inr ⟨sh, sw, rfl⟩), had]
 
-/-- `Σ_{k'} [d ∣ k'] G k'` with the guard written as an `if` around an arbitrary body -/
-theorem sumTo_dilate' (K d : Nat) (hK : 0 < K) (hd : 0 < d) (F : Nat → Nat → Int) :
-    sumTo ((K - 1) * d + 1) (fun k' => if k' % d = 0 then F (k' / d) k' else 0) = sumTo K (fun k => F k (k * d)) := by
-  obtain ⟨K', rfl⟩ : ∃ K', K = K' + 1 := ⟨K - 1, by omega⟩
-  simpa using sumTo_dilate K' d hd F
+theorem form2_of_pos {a : PArg} (h : PosForm2 a) : Form2 a := by
+  rcases h with rfl | ⟨v, _, rfl⟩ | ⟨h, w, _, _, rfl⟩
+  · exact Or.inl rfl
+  · exact Or.inr (Or.inl ⟨v, rfl⟩)
+  · exact Or.inr (Or.inr ⟨h, w, rfl⟩)
 
-theorem convnd2_eq_codeLoop {x w : Arr Int} {bias : Option (Arr Int)} {Og g Cg H W KH KW : Nat} {stride padding dilation : PArg}
-    (hx : x.shape = [1, g * Cg, H, W]) (hw : w.shape = [Og * g, Cg, KH, KW]) (hb : ∀ b, bias = some b → b.shape = [Og * g])
-    (hOg : 0 < Og) (hg : 0 < g) (hKH : 0 < KH) (hKW : 0 < KW) (hs : PosForm stride) (hp : IntForm padding) (hd : PosForm dilation)
-    (hfH : (KH - 1) * dilV dilation + 1 ≤ H + 2 * padVal padding) (hfW : (KW - 1) * dilV dilation + 1 ≤ W + 2 * padVal padding) :
+/-! ### assembly -/
+
+theorem convnd2_eq_codeLoop {x w : Arr Int} {bias : Option (Arr Int)} {N Og g Cg H W KH KW : Nat} {stride padding dilation : PArg}
+    (hx : x.shape = [N, g * Cg, H, W]) (hw : w.shape = [Og * g, Cg, KH, KW]) (hb : ∀ b, bias = some b → b.shape = [Og * g])
+    (hOg : 0 < Og) (hg : 0 < g) (hKH : 0 < KH) (hKW : 0 < KW) (hs : PosForm2 stride) (hp : Form2 padding) (hd : PosForm2 dilation)
+    (hfH : (KH - 1) * (vals2 1 dilation).1 + 1 ≤ H + 2 * (vals2 0 padding).1)
+    (hfW : (KW - 1) * (vals2 1 dilation).2 + 1 ≤ W + 2 * (vals2 0 padding).2) :
     ∃ r, convnd 2 x w bias stride padding dilation g = .ok r ∧
-      r.shape = [1, Og * g, outSize H KH (strideVal stride) (padVal padding) (dilV dilation),
-                 outSize W KW (strideVal stride) (padVal padding) (dilV dilation)] ∧
-      ∀ o i j, o < Og * g → i < outSize H KH (strideVal stride) (padVal padding) (dilV dilation) →
-        j < outSize W KW (strideVal stride) (padVal padding) (dilV dilation) →
-        r.get [0, o, i, j] = conv2dLoop (grpCode g) x w bias H W Cg KH KW (strideVal stride) (padVal padding) (dilV dilation) o i j := by
-  have hdp := dilV_pos hd
-  have hsp := strideVal_pos hs
-  obtain ⟨rs, hrs, hrss, hrsg⟩ := convCore2 (ain := ainArr2 x g Cg H W padding) (aw := awArr2 w Og g Cg KH KW dilation)
-    (ainArr2_shape hp) (awArr2_shape hKH hKW hd) hOg hg (Nat.succ_pos _) (Nat.succ_pos _) hfH hfW
+      r.shape = [N, Og * g, outSize H KH (vals2 1 stride).1 (vals2 0 padding).1 (vals2 1 dilation).1,
+                 outSize W KW (vals2 1 stride).2 (vals2 0 padding).2 (vals2 1 dilation).2] ∧
+      ∀ n o i j, n < N → o < Og * g → i < outSize H KH (vals2 1 stride).1 (vals2 0 padding).1 (vals2 1 dilation).1 →
+        j < outSize W KW (vals2 1 stride).2 (vals2 0 padding).2 (vals2 1 dilation).2 →
+        r.get [n, o, i, j] = conv2dLoop (grpCode g) x w bias H W Cg KH KW (vals2 1 stride).1 (vals2 1 stride).2
+          (vals2 0 padding).1 (vals2 0 padding).2 (vals2 1 dilation).1 (vals2 1 dilation).2 n o i j := by
+  obtain ⟨hdH, hdW⟩ := vals2_pos hd
+  obtain ⟨hsH, hsW⟩ := vals2_pos hs
+  generalize hdHe : (vals2 1 dilation).1 = dH at *
+  generalize hdWe : (vals2 1 dilation).2 = dW at *
+  generalize hsHe : (vals2 1 stride).1 = sH at *
+  generalize hsWe : (vals2 1 stride).2 = sW at *
+  generalize hpHe : (vals2 0 padding).1 = pH at *
+  generalize hpWe : (vals2 0 padding).2 = pW at *
+  have hains : (ainArr2 x N g Cg H W padding).shape = [N, 1, g, Cg, H + 2 * pH, W + 2 * pW] := by
+    rw [ainArr2_shape hp, hpHe, hpWe]
+  have haws : (awArr2 w Og g Cg KH KW dilation).shape = [Og, g, Cg, (KH - 1) * dH + 1, (KW - 1) * dW + 1] := by
+    rw [awArr2_shape hKH hKW hd, hdHe, hdWe]
+  obtain ⟨rs, hrs, hrss, hrsg⟩ := convCore2 hains haws hOg hg (Nat.succ_pos _) (Nat.succ_pos _) hfH hfW
   obtain ⟨ad, had, hads, hadg⟩ := convBias2 hrss (by omega) (by omega) bias hb
+  have hst := convStride2 hads (form2_of_pos hs)
+  rw [hsHe, hsWe] at hst
   refine ⟨convStride 2 ad stride, ?_, ?_, ?_⟩
   · unfold convnd
     rw [convWeight2_eq hw hg, convInput2_eq hx hg hp]
     simp only [hrs, Option.bind_some, had]
-  · rw [convStride2_shape hads hs, out_arith hsp hfH, out_arith hsp hfW]
-  · intro o i j ho hi hj
-    rw [convStride2 hads hs]
-    have his : i * strideVal stride < H + 2 * padVal padding - ((KH - 1) * dilV dilation + 1 - 1) := by
-      apply mul_lt_of_lt_ceil hsp; rw [out_arith hsp hfH]; exact hi
-    have hjs : j * strideVal stride < W + 2 * padVal padding - ((KW - 1) * dilV dilation + 1 - 1) := by
-      apply mul_lt_of_lt_ceil hsp; rw [out_arith hsp hfW]; exact hj
-    rw [hadg o _ _ ho his hjs, hrsg o _ _ ho his hjs]
-    unfold conv2dLoop
+  · rw [hst.1, out_arith hsH hfH, out_arith hsW hfW]
+  · intro n o i j hn ho hi hj
+    rw [hst.2]
+    have his : i * sH < H + 2 * pH - ((KH - 1) * dH + 1 - 1) := by
+      apply mul_lt_of_lt_ceil hsH; rw [out_arith hsH hfH]; exact hi
+    have hjs : j * sW < W + 2 * pW - ((KW - 1) * dW + 1 - 1) := by
+      apply mul_lt_of_lt_ceil hsW; rw [out_arith hsW hfW]; exact hj
+    rw [hadg n o _ _ hn ho his hjs, hrsg n o _ _ hn ho his hjs]
+    unfold conv2dLoop grpCode
     congr 1
     apply sumTo_congr; intro c hc
     have hb' : o % g < g := Nat.mod_lt _ hg
     have ha' : o / g < Og := (Nat.div_lt_iff_lt_mul hg).2 ho
     have hog : o / g * g + o % g = o := by rw [Nat.mul_comm]; exact Nat.div_add_mod o g
-    have step : ∀ kw, kw < (KW - 1) * dilV dilation + 1 → ∀ kh, kh < (KH - 1) * dilV dilation + 1 →
-        (ainArr2 x g Cg H W padding).get [0, 0, o % g, c, i * strideVal stride + kh, j * strideVal stride + kw]
+    have step : ∀ kw, kw < (KW - 1) * dW + 1 → ∀ kh, kh < (KH - 1) * dH + 1 →
+        (ainArr2 x N g Cg H W padding).get [n, 0, o % g, c, i * sH + kh, j * sW + kw]
             * (awArr2 w Og g Cg KH KW dilation).get [o / g, o % g, c, kh, kw]
-        = if kw % dilV dilation = 0 then
-            (if kh % dilV dilation = 0 then
-              padRead2 x H W (padVal padding) (grpCode g o * Cg + c) (i * strideVal stride + kh) (j * strideVal stride + kw)
-                * w.get [o, c, kh / dilV dilation, kw / dilV dilation]
+        = if kw % dW = 0 then
+            (if kh % dH = 0 then
+              padRead2 x H W pH pW n (o % g * Cg + c) (i * sH + kh) (j * sW + kw) * w.get [o, c, kh / dH, kw / dW]
              else 0)
           else 0 := by
       intro kw hkw kh hkh
-      rw [ainArr2_get hx hp hb' hc (by omega) (by omega), awArr2_get hw hKH hKW hd ha' hb' hc hkh hkw, hog]
-      unfold grpCode
+      have e1 := ainArr2_get (x := x) (N := N) (g := g) (Cg := Cg) (H := H) (W := W) hx hp hn hb' hc
+        (i := i * sH + kh) (j := j * sW + kw) (by rw [hpHe]; omega) (by rw [hpWe]; omega)
+      have e2 := awArr2_get (w := w) hw hKH hKW hd ha' hb' hc (kh := kh) (kw := kw) (by rw [hdHe]; exact hkh) (by rw [hdWe]; exact hkw)
+      rw [hpHe, hpWe] at e1
+      rw [hdHe, hdWe] at e2
+      rw [e1, e2, hog]
       split
       · split <;> simp
       · simp
-    -- inner sums: guards out, then un-dilate kh; then un-dilate kw; then exchange the two kernel sums
-    have inner : ∀ kw, kw < (KW - 1) * dilV dilation + 1 →
-        sumTo ((KH - 1) * dilV dilation + 1) (fun kh =>
-          (ainArr2 x g Cg H W padding).get [0, 0, o % g, c, i * strideVal stride + kh, j * strideVal stride + kw]
+    have inner : ∀ kw, kw < (KW - 1) * dW + 1 →
+        sumTo ((KH - 1) * dH + 1) (fun kh =>
+          (ainArr2 x N g Cg H W padding).get [n, 0, o % g, c, i * sH + kh, j * sW + kw]
             * (awArr2 w Og g Cg KH KW dilation).get [o / g, o % g, c, kh, kw])
-        = if kw % dilV dilation = 0 then
-            sumTo KH (fun kh => padRead2 x H W (padVal padding) (grpCode g o * Cg + c) (i * strideVal stride + kh * dilV dilation) (j * strideVal stride + kw)
-                * w.get [o, c, kh, kw / dilV dilation])
+        = if kw % dW = 0 then
+            sumTo KH (fun kh => padRead2 x H W pH pW n (o % g * Cg + c) (i * sH + kh * dH) (j * sW + kw) * w.get [o, c, kh, kw / dW])
           else 0 := by
       intro kw hkw
       rw [sumTo_congr (fun kh hkh => step kw hkw kh hkh)]
-      by_cases hm : kw % dilV dilation = 0
+      by_cases hm : kw % dW = 0
       · simp only [hm, if_true]
-        exact sumTo_dilate' KH (dilV dilation) hKH hdp (fun k k' =>
-          padRead2 x H W (padVal padding) (grpCode g o * Cg + c) (i * strideVal stride + k') (j * strideVal stride + kw) * w.get [o, c, k, kw / dilV dilation])
+        exact sumTo_dilate' KH dH hKH hdH (fun k k' =>
+          padRead2 x H W pH pW n (o % g * Cg + c) (i * sH + k') (j * sW + kw) * w.get [o, c, k, kw / dW])
       · simp only [hm, if_false]
         exact sumTo_const_zero _
     rw [sumTo_congr inner]
-    rw [sumTo_dilate' KW (dilV dilation) hKW hdp (fun k k' =>
-      sumTo KH (fun kh => padRead2 x H W (padVal padding) (grpCode g o * Cg + c) (i * strideVal stride + kh * dilV dilation) (j * strideVal stride + k')
-        * w.get [o, c, kh, k]))]
+    rw [sumTo_dilate' KW dW hKW hdW (fun k k' =>
+      sumTo KH (fun kh => padRead2 x H W pH pW n (o % g * Cg + c) (i * sH + kh * dH) (j * sW + k') * w.get [o, c, kh, k]))]
     exact sumTo_comm KW KH _
 
-
 theorem conv2dLoop_congr_grp {grp grp' : Nat → Nat} {o : Nat} (h : grp o = grp' o) (x w : Arr Int) (bias : Option (Arr Int))
-    (H W Cg KH KW s p d i j : Nat) : conv2dLoop grp x w bias H W Cg KH KW s p d o i j = conv2dLoop grp' x w bias H W Cg KH KW s p d o i j := by
+    (H W Cg KH KW sH sW pH pW dH dW n i j : Nat) :
+    conv2dLoop grp x w bias H W Cg KH KW sH sW pH pW dH dW n o i j = conv2dLoop grp' x w bias H W Cg KH KW sH sW pH pW dH dW n o i j := by
   unfold conv2dLoop; rw [h]
 
 end NmVerif.NN
